@@ -776,6 +776,52 @@ m("C18", "duplicate-request-accepted", RR,
   "	if err != nil {\n		log.Errorw(\"failed to create tracking channel\", \"channelID\", chid, \"err\", err)\n	}",
   "C18.3", "a duplicate incoming request disturbs the existing channel")
 
+# ---------------- C19
+m("C19", "last-result-unguarded", CS,
+  "	if len(c.ic.VoucherResults) == 0 {\n		return datatransfer.TypedVoucher{}\n	}\n",
+  "",
+  "C19.1", "LastVoucherResult panics on a channel without results (defect D1)")
+m("C19", "rejection-result-dropped", RR,
+  "	if result.VoucherResult != nil {\n		if err := m.channels.NewVoucherResult(chid, *result.VoucherResult); err != nil {\n			return err\n		}\n	}\n\n	return m.channels.Error(chid, datatransfer.ErrRejected)",
+  "	return m.channels.Error(chid, datatransfer.ErrRejected)",
+  "C19.6", "the voucher result of a rejection is dropped", "calibration")
+m("C19", "only-last-result-kept", FSM,
+  "			chst.VoucherResults = append(chst.VoucherResults,\n				internal.EncodedVoucherResult{",
+  "			chst.VoucherResults = append(chst.VoucherResults[:0],\n				internal.EncodedVoucherResult{",
+  "C19.4", "only the last voucher result is kept", "calibration")
+m("C19", "record-before-send", IMPL,
+  "	if err := m.dataTransferNetwork.SendMessage(ctx, chst.OtherPeer(), updateRequest); err != nil {\n		err = fmt.Errorf(\"unable to send request: %w\", err)\n		_ = m.OnRequestDisconnected(channelID, err)\n		span.RecordError(err)\n		span.SetStatus(codes.Error, err.Error())\n		return err\n	}\n	return m.channels.NewVoucher(channelID, voucher)",
+  "	if err := m.channels.NewVoucher(channelID, voucher); err != nil {\n		return err\n	}\n	if err := m.dataTransferNetwork.SendMessage(ctx, chst.OtherPeer(), updateRequest); err != nil {\n		err = fmt.Errorf(\"unable to send request: %w\", err)\n		_ = m.OnRequestDisconnected(channelID, err)\n		span.RecordError(err)\n		span.SetStatus(codes.Error, err.Error())\n		return err\n	}\n	return nil",
+  "C19.5", "a voucher whose send failed is still recorded", "seeded/C19a")
+m("C19", "migration-initiator-from-sender", MIG,
+  "		Initiator:            oldChannelState.Initiator,",
+  "		Initiator:            oldChannelState.Sender,",
+  "C13.1", "migrated pull channels report the wrong initiator / direction", "seeded/C19b")
+m("C19", "ispull-by-sender", CS,
+  "	return c.ic.Initiator == c.ic.Recipient",
+  "	return c.ic.Initiator != c.ic.Sender",
+  "C19.2", "IsPull derived from the sender (differs when sender == recipient)")
+m("C19", "other-peer-wrong", CS,
+  "	if c.ic.Sender == c.ic.SelfPeer {\n		return c.ic.Recipient\n	}\n	return c.ic.Sender",
+  "	if c.ic.Initiator == c.ic.SelfPeer {\n		return c.ic.Recipient\n	}\n	return c.ic.Sender",
+  "C19.2", "other peer computed from the initiator: wrong for pull initiators")
+m("C19", "first-voucher-is-last", CS,
+  "	ev := c.ic.Vouchers[0]\n	return",
+  "	ev := c.ic.Vouchers[len(c.ic.Vouchers)-1]\n	return",
+  "C19.2", "Voucher() returns the latest voucher instead of the opening one")
+m("C19", "received-voucher-not-recorded", RR,
+  "	return nil, m.channels.NewVoucher(chid, voucher)\n}",
+  "	_ = voucher\n	return nil, nil\n}",
+  "C19.6", "responder does not record vouchers it received")
+m("C19", "responder-derivation", CH,
+  "	if dataSender == initiator {\n		responder = dataReceiver\n	} else {\n		responder = dataSender\n	}",
+  "	if dataReceiver == initiator {\n		responder = dataReceiver\n	} else {\n		responder = dataSender\n	}",
+  "C19.3", "responder of a pull channel recorded as the initiator")
+m("C19", "log-exposed", CS,
+  "	vouchers := make([]datatransfer.TypedVoucher, 0, len(c.ic.Vouchers))\n	for _, encoded := range c.ic.Vouchers {\n		vouchers = append(vouchers, datatransfer.TypedVoucher{Voucher: encoded.Voucher.Node, Type: encoded.Type})\n	}\n	return vouchers",
+  "	var vouchers []datatransfer.TypedVoucher\n	for i := 0; i <= len(c.ic.Vouchers); i++ {\n		encoded := c.ic.Vouchers[i]\n		vouchers = append(vouchers, datatransfer.TypedVoucher{Voucher: encoded.Voucher.Node, Type: encoded.Type})\n	}\n	return vouchers",
+  "C19.1", "Vouchers() indexes one past the end")
+
 by = collections.defaultdict(list)
 for x in M:
     p = x.pop("prop")
